@@ -470,6 +470,28 @@ def truncated_cases(mode):
                        "fields": None, "cfg": 1}
 
 
+    # seconds (or minutes) on their own, with and without a truncated date
+    for sec in (-1, 0, 30, 59, 60, 61, 75):
+        legal = 0 <= sec <= 59
+        yield {"op": "ctor", "mode": mode, "what": "time",
+               "kw": {"truncated": True, "second_of_minute": sec},
+               "legal": legal, "near": True, "no_fields": True}
+        yield {"op": "ctor", "mode": mode, "what": "time",
+               "kw": {"truncated": True, "minute_of_hour": sec},
+               "legal": legal, "near": True, "no_fields": True}
+        yield {"op": "ctor", "mode": mode, "what": "time",
+               "kw": {"truncated": True, "day_of_month": 5,
+                      "second_of_minute": sec},
+               "legal": legal, "near": True, "no_fields": True}
+        if sec >= 0:
+            for head in ("", "-W-5", "--0228", "-036", "---12"):
+                for tail in ("", "Z", ",5"):
+                    yield {"op": "text", "mode": mode, "what": "time",
+                           "text": "%sT--%02d%s" % (head, sec, tail),
+                           "legal": legal, "fields": None, "cfg": 1}
+                yield {"op": "text", "mode": mode, "what": "time",
+                       "text": "%sT-%02d" % (head, sec),
+                       "legal": legal, "fields": None, "cfg": 1}
     # a weekday on its own (no week number beside it)
     for dow in range(-1, 11):
         legal = 1 <= dow <= 7
